@@ -117,6 +117,11 @@ spifconf_register_context(spif_charptr_t name, ctx_handler_t handler)
     ASSERT_RVAL(!SPIF_PTR_ISNULL(handler), (unsigned char) -1);
 
     if (strcasecmp((char *) name, "null")) {
+        if (ctx_idx == (unsigned char) -1) {
+            /* The index is 8 bits wide.  One more entry would wrap it around to the catch-all context. */
+            libast_print_error("Unable to register context \"%s\":  table is full\n", name);
+            return ((unsigned char) -1);
+        }
         if (++ctx_idx == ctx_cnt) {
             ctx_cnt *= 2;
             context = (ctx_t *) REALLOC(context, sizeof(ctx_t) * ctx_cnt);
@@ -158,6 +163,11 @@ spifconf_register_builtin(char *name, spifconf_func_ptr_t ptr)
 {
     ASSERT_RVAL(!SPIF_PTR_ISNULL(name), (unsigned char) -1);
 
+    if (builtin_idx == (unsigned char) -1) {
+        /* The index is 8 bits wide.  One more entry would wrap it around and start overwriting the table. */
+        libast_print_error("Unable to register builtin function \"%s\":  table is full\n", name);
+        return ((unsigned char) -1);
+    }
     builtins[builtin_idx].name = (spif_charptr_t) STRDUP(name);
     builtins[builtin_idx].ptr = ptr;
     if (++builtin_idx == builtin_cnt) {
